@@ -105,6 +105,9 @@ type SchedPlan struct {
 	StallSite  int     `json:"stall_site,omitempty"`
 	StallNth   int     `json:"stall_nth,omitempty"`
 	StallLen   int     `json:"stall_len,omitempty"`
+	Stall2Site int     `json:"stall2_site,omitempty"` // optional second stalled task
+	Stall2Nth  int     `json:"stall2_nth,omitempty"`
+	Stall2Len  int     `json:"stall2_len,omitempty"`
 	Disabled   []int   `json:"disabled_classes,omitempty"`
 	Seed       uint64  `json:"seed"`
 	MaxSteps   int     `json:"max_steps,omitempty"`
@@ -147,6 +150,7 @@ type Sched struct {
 	changePts  map[int]bool
 	lowPrio    int
 	stallHits  int
+	stall2Hits int
 	abort      bool
 	abortWhy   string
 	abortStack string
@@ -361,6 +365,14 @@ func (s *Sched) yield(site int) {
 		s.stallHits++
 		if s.stallHits == s.plan.StallNth {
 			t.stallTo = s.picks + s.plan.StallLen
+			s.park(t, site, tsParked)
+			return
+		}
+	}
+	if s.plan.Stall2Site == site && s.plan.Stall2Len > 0 {
+		s.stall2Hits++
+		if s.stall2Hits == s.plan.Stall2Nth {
+			t.stallTo = s.picks + s.plan.Stall2Len
 			s.park(t, site, tsParked)
 			return
 		}
